@@ -64,6 +64,17 @@ pub mod lef21 {
     }
     /// opaque: import_units ignores its argument
     pub struct LefUnits { }
+    pub struct LefSite { }
+    #[derive(Clone, Copy, Debug)]
+    pub enum LefOnOff { On, Off }
+    // model of #[derive(PartialEq)] on the field-less enum
+    impl vstd::std_specs::cmp::PartialEqSpecImpl for LefOnOff {
+        open spec fn obeys_eq_spec() -> bool { true }
+        open spec fn eq_spec(&self, other: &Self) -> bool { *self == *other }
+    }
+    impl PartialEq for LefOnOff { fn eq(&self, other: &Self) -> bool { match (self, other) { (LefOnOff::On, LefOnOff::On) => true, (LefOnOff::Off, LefOnOff::Off) => true, _ => false } } }
+    /// R5: LefLibrary reduced to the fields import_lib reads
+    pub struct LefLibrary { pub macros: Vec<LefMacro>, pub sites: Vec<LefSite>, pub names_case_sensitive: Option<LefOnOff>, pub units: Option<LefUnits> }
 }
 // model of Decimal's comparison operators: comparison of the values m / 10^s
 impl vstd::std_specs::cmp::PartialEqSpecImpl for lef21::LefDecimal {
@@ -130,11 +141,13 @@ impl Point {
 //|     ensures r.x == x, r.y == y,
 //@ end
 }
-// R5: the importer without the two fields the coordinate code never touches (layers: Ptr<Layers>, lib: Library)
+/// R5: the raw Library reduced to name, units and cells; `cells: PtrList<Cell>` as the list of the cells themselves; Cell reduced to name + abstract view
+pub struct Cell { pub name: String, pub abs: Option<Abstract> }
+pub struct Library { pub name: String, pub units: Units, pub cells: Vec<Cell> }
+// R5: the importer without its shared layer table (layers: Ptr<Layers>)
 //@ item layout21raw/src/lef.rs :: struct LefImporter
 //@   sub R5 /layers: Ptr<Layers>,/ =>
-//@   sub R5 /lib: Library,/ =>
-//@   sub R4 /\n    (ctx|dist_scale):/ => \n    pub \1:
+//@   sub R4 /\n    (ctx|dist_scale|lib):/ => \n    pub \1:
 //@ end
 
 // =====================================================================================================
@@ -274,19 +287,19 @@ impl LefImporter {
 //@   spec
 //|     requires pin_dec_ok(*lefpin, old(self).dist_scale as int),
 //|         obeys_key_model::<LayerKey>(),
-//|     ensures final(self).dist_scale == old(self).dist_scale,
+//|     ensures final(self).dist_scale == old(self).dist_scale, final(self).lib == old(self).lib,
 //|         r is Ok ==> final(self).ctx@ == old(self).ctx@ && r->Ok_0.net@ == lefpin.name@
 //|             && exists|items: Seq<(LayerKey, Seq<Shape>)>| #[trigger] items_are(items, pin_geoms(lefpin.ports@), old(self).dist_scale as int) && lists(r->Ok_0.shapes@) == merged(items),
 //@   before /for port in lefpin\.ports\.iter\(\) \{/
 //|         let ghost mut items: Seq<(LayerKey, Seq<Shape>)> = Seq::empty();
 //@   loop 1 iter it
-//|             invariant self.dist_scale == old(self).dist_scale, self.ctx@ == old(self).ctx@, it.index@ <= lefpin.ports@.len(), abs_port.net@ == lefpin.name@, obeys_key_model::<LayerKey>(),
+//|             invariant self.dist_scale == old(self).dist_scale, self.lib == old(self).lib, self.ctx@ == old(self).ctx@, it.index@ <= lefpin.ports@.len(), abs_port.net@ == lefpin.name@, obeys_key_model::<LayerKey>(),
 //|                 pin_dec_ok(*lefpin, self.dist_scale as int),
 //|                 items_are(items, pin_geoms(lefpin.ports@.take(it.index@ as int)), self.dist_scale as int), lists(abs_port.shapes@) == merged(items),
 //@   before /for lef_layer_geom in port\.layers\.iter\(\) \{/
 //|             let ghost items0 = items;
 //@   loop 2 iter it2
-//|                 invariant self.dist_scale == old(self).dist_scale, self.ctx@ == old(self).ctx@, 0 <= it.index@ < lefpin.ports@.len(), it2.index@ <= port.layers@.len(), abs_port.net@ == lefpin.name@, obeys_key_model::<LayerKey>(),
+//|                 invariant self.dist_scale == old(self).dist_scale, self.lib == old(self).lib, self.ctx@ == old(self).ctx@, 0 <= it.index@ < lefpin.ports@.len(), it2.index@ <= port.layers@.len(), abs_port.net@ == lefpin.name@, obeys_key_model::<LayerKey>(),
 //|                     *port == lefpin.ports@[it.index@ as int],
 //|                     pin_dec_ok(*lefpin, self.dist_scale as int),
 //|                     items_are(items, pin_geoms(lefpin.ports@.take(it.index@ as int)) + port.layers@.take(it2.index@ as int), self.dist_scale as int), lists(abs_port.shapes@) == merged(items),
@@ -322,7 +335,7 @@ pub open spec fn macro_dec_ok(m: lef21::LefMacro, scale: int) -> bool {
 impl LefImporter {
     /// model of the block in import_abstract that looks up / creates the layer named "boundary" in the shared layer table (result unused)
     #[verifier::external_body]
-    fn vp_boundary_layer(&mut self) -> (r: LayoutResult<LayerKey>) ensures final(self).dist_scale == old(self).dist_scale, final(self).ctx == old(self).ctx { unimplemented!() }
+    fn vp_boundary_layer(&mut self) -> (r: LayoutResult<LayerKey>) ensures final(self).dist_scale == old(self).dist_scale, final(self).lib == old(self).lib, final(self).ctx == old(self).ctx { unimplemented!() }
 //@ fn layout21raw/src/lef.rs :: impl LefImporter :: fn import_abstract
 //@   ret r
 //@   sub R5 @c7395c62 /let _layer = \{[\s\S]*?\n            \};/ => let _layer = self.vp_boundary_layer()?;
@@ -331,21 +344,10 @@ impl LefImporter {
 //@   sub R6 /match abs\.blockages\.entry\(layerkey\) \{\s*Entry::Occupied\(mut e\) => e\.get_mut\(\)\.extend\(shapes\),\s*Entry::Vacant\(e\) => \{\s*e\.insert\(shapes\);\s*\}\s*\}/ => vp_entry_extend(&mut abs.blockages, layerkey, shapes);
 //@   spec
 //|     requires macro_dec_ok(*lefmacro, old(self).dist_scale as int), obeys_key_model::<LayerKey>(),
-//|     ensures final(self).dist_scale == old(self).dist_scale,
-//|         r is Ok ==> ({
-//|             let scale = old(self).dist_scale as int; let a = r->Ok_0;
-//|             &&& final(self).ctx@ == old(self).ctx@ &&& lefmacro.size is Some
-//|             &&& { let sz = lef21::LefPoint { x: lefmacro.size->Some_0.0, y: lefmacro.size->Some_0.1 }; let c = pt_val(sz, scale);
-//|                   // the outline is the SIZE rectangle with its lower-left corner at the origin
-//|                   pt_ok(sz, scale) && a.outline.points@ == seq![Point { x: 0, y: 0 }, Point { x: c.x, y: 0 }, Point { x: c.x, y: c.y }, Point { x: 0, y: c.y }] }
-//|             &&& a.name@ == lefmacro.name@
-//|             // one port per pin, in order
-//|             &&& a.ports@.len() == lefmacro.pins@.len() &&& forall|i: int| 0 <= i < lefmacro.pins@.len() ==> port_is(#[trigger] a.ports@[i], lefmacro.pins@[i], scale)
-//|             // obstructions merged per layer, in order
-//|             &&& exists|items: Seq<(LayerKey, Seq<Shape>)>| #[trigger] items_are(items, lefmacro.obs@, scale) && lists(a.blockages@) == merged(items)
-//|         }),
+//|     ensures final(self).dist_scale == old(self).dist_scale, final(self).lib == old(self).lib,
+//|         r is Ok ==> final(self).ctx@ == old(self).ctx@ && abs_is(r->Ok_0, *lefmacro, old(self).dist_scale as int),
 //@   loop 1 iter it
-//|             invariant self.dist_scale == old(self).dist_scale, self.ctx@ == old(self).ctx@.push(ErrorContext::Abstract), macro_dec_ok(*lefmacro, self.dist_scale as int), obeys_key_model::<LayerKey>(),
+//|             invariant self.dist_scale == old(self).dist_scale, self.lib == old(self).lib, self.ctx@ == old(self).ctx@.push(ErrorContext::Abstract), macro_dec_ok(*lefmacro, self.dist_scale as int), obeys_key_model::<LayerKey>(),
 //|                 abs.name@ == lefmacro.name@, abs.outline == outline, abs.blockages@ == Map::<LayerKey, Vec<Shape>>::empty(),
 //|                 abs.ports@.len() == it.index@, it.index@ <= lefmacro.pins@.len(),
 //|                 forall|i: int| 0 <= i < it.index@ ==> port_is(#[trigger] abs.ports@[i], lefmacro.pins@[i], self.dist_scale as int),
@@ -353,7 +355,7 @@ impl LefImporter {
 //|         let ghost mut items: Seq<(LayerKey, Seq<Shape>)> = Seq::empty();
 //|         proof { assert(lists(abs.blockages@) =~= merged(items)); }
 //@   loop 2 iter it2
-//|             invariant self.dist_scale == old(self).dist_scale, self.ctx@ == old(self).ctx@.push(ErrorContext::Abstract), macro_dec_ok(*lefmacro, self.dist_scale as int), obeys_key_model::<LayerKey>(),
+//|             invariant self.dist_scale == old(self).dist_scale, self.lib == old(self).lib, self.ctx@ == old(self).ctx@.push(ErrorContext::Abstract), macro_dec_ok(*lefmacro, self.dist_scale as int), obeys_key_model::<LayerKey>(),
 //|                 abs.name@ == lefmacro.name@, abs.outline == outline, abs.ports@.len() == lefmacro.pins@.len(), it2.index@ <= lefmacro.obs@.len(),
 //|                 forall|i: int| 0 <= i < lefmacro.pins@.len() ==> port_is(#[trigger] abs.ports@[i], lefmacro.pins@[i], self.dist_scale as int),
 //|                 items_are(items, lefmacro.obs@.take(it2.index@ as int), self.dist_scale as int), lists(abs.blockages@) == merged(items),
@@ -374,7 +376,7 @@ impl LefImporter {
     /// model of LefImporter::import_layer (locks the shared layer table, looks the name up, creates the layer if absent): the name's key
     #[verifier::external_body]
     fn import_layer(&mut self, leflayer: &String) -> (r: LayoutResult<LayerKey>)
-        ensures final(self).dist_scale == old(self).dist_scale, final(self).ctx == old(self).ctx, r is Ok ==> r->Ok_0 == key_of(leflayer@),
+        ensures final(self).dist_scale == old(self).dist_scale, final(self).lib == old(self).lib, final(self).ctx == old(self).ctx, r is Ok ==> r->Ok_0 == key_of(leflayer@),
     { unimplemented!() }
     /// model of `warn`: prints
     #[verifier::external_body]
@@ -383,14 +385,14 @@ impl LefImporter {
 //@   ret r
 //@   spec
 //|     requires shape_dec_ok(*lefshape, *layer, old(self).dist_scale as int),
-//|     ensures final(self).dist_scale == old(self).dist_scale, final(self).ctx == old(self).ctx,
+//|     ensures final(self).dist_scale == old(self).dist_scale, final(self).lib == old(self).lib, final(self).ctx == old(self).ctx,
 //|         r is Ok ==> shape_is(r->Ok_0, *lefshape, *layer, old(self).dist_scale as int),
 //@ end
 //@ fn layout21raw/src/lef.rs :: impl LefImporter :: fn import_geometry
 //@   ret r
 //@   spec
 //|     requires geom_dec_ok(*geom, *layer, old(self).dist_scale as int),
-//|     ensures final(self).dist_scale == old(self).dist_scale, final(self).ctx == old(self).ctx,
+//|     ensures final(self).dist_scale == old(self).dist_scale, final(self).lib == old(self).lib, final(self).ctx == old(self).ctx,
 //|         r is Ok ==> geom is Shape && shape_is(r->Ok_0, geom->Shape_0, *layer, old(self).dist_scale as int),
 //@ end
 //@ fn layout21raw/src/lef.rs :: impl LefImporter :: fn import_layer_geometries
@@ -398,11 +400,11 @@ impl LefImporter {
 //@   sub R6 /for geom in &geoms\.geometries \{/ => for geom in geoms.geometries.iter() {
 //@   spec
 //|     requires geoms_dec_ok(*geoms, old(self).dist_scale as int),
-//|     ensures final(self).dist_scale == old(self).dist_scale,
+//|     ensures final(self).dist_scale == old(self).dist_scale, final(self).lib == old(self).lib,
 //|         r is Ok ==> final(self).ctx@ == old(self).ctx@ && geoms_supported(*geoms) && r->Ok_0.0 == key_of(geoms.layer_name@)
 //|             && shapes_are(r->Ok_0.1@, *geoms, geoms.geometries@.len() as int, old(self).dist_scale as int),
 //@   loop 1 iter it
-//|             invariant self.dist_scale == old(self).dist_scale, self.ctx@ == old(self).ctx@.push(ErrorContext::Geometry), geoms_dec_ok(*geoms, self.dist_scale as int),
+//|             invariant self.dist_scale == old(self).dist_scale, self.lib == old(self).lib, self.ctx@ == old(self).ctx@.push(ErrorContext::Geometry), geoms_dec_ok(*geoms, self.dist_scale as int),
 //|                 shapes_are(shapes@, *geoms, it.index@ as int, self.dist_scale as int), it.index@ <= geoms.geometries@.len(),
 //@   before /^        Ok\(\(layerkey, shapes\)\)$/
 //|         proof { assert(self.ctx@ =~= old(self).ctx@); }
@@ -414,14 +416,16 @@ impl LefImporter {
 //@ fn layout21raw/src/lef.rs :: impl LefImporter :: fn import_units
 //@   ret r
 //@   spec
-//|     ensures r == Ok::<Units, LayoutError>(Units::Angstrom), final(self).dist_scale == 10_000,
+//|     ensures r == Ok::<Units, LayoutError>(Units::Angstrom), final(self).dist_scale == 10_000, final(self).lib == old(self).lib, final(self).ctx@ == old(self).ctx@,
+//@   before /^        Ok\(Units::Angstrom\)$/
+//|         proof { assert(self.ctx@ =~= old(self).ctx@); }
 //@ end
 //@ fn layout21raw/src/lef.rs :: impl LefImporter :: fn import_dist
 //@   ret r
 //@   sub R10 /lefdec \* lef21::LefDecimal::from\(self\.dist_scale\)/ => core::ops::Mul::mul(lefdec, lef21::LefDecimal::from(self.dist_scale))
 //@   spec
 //|     requires dec_ok(*lefdec, old(self).dist_scale as int),
-//|     ensures final(self).dist_scale == old(self).dist_scale, final(self).ctx == old(self).ctx,
+//|     ensures final(self).dist_scale == old(self).dist_scale, final(self).lib == old(self).lib, final(self).ctx == old(self).ctx,
 //|         match r {
 //|             Ok(v) => dist_ok(*lefdec, old(self).dist_scale as int) && v == dist_val(*lefdec, old(self).dist_scale as int),
 //|             Err(_) => !dist_ok(*lefdec, old(self).dist_scale as int),
@@ -433,7 +437,7 @@ impl LefImporter {
 //@   ret r
 //@   spec
 //|     requires pt_dec_ok(*pt, old(self).dist_scale as int),
-//|     ensures final(self).dist_scale == old(self).dist_scale, final(self).ctx == old(self).ctx,
+//|     ensures final(self).dist_scale == old(self).dist_scale, final(self).lib == old(self).lib, final(self).ctx == old(self).ctx,
 //|         match r {
 //|             Ok(p) => pt_ok(*pt, old(self).dist_scale as int) && p == pt_val(*pt, old(self).dist_scale as int),
 //|             Err(_) => !pt_ok(*pt, old(self).dist_scale as int),
@@ -444,7 +448,7 @@ impl LefImporter {
     #[verifier::external_body]
     fn import_point_vec(&mut self, pts: &Vec<lef21::LefPoint>) -> (r: LayoutResult<Vec<Point>>)
         requires forall|i: int| 0 <= i < pts@.len() ==> pt_dec_ok(#[trigger] pts@[i], old(self).dist_scale as int),
-        ensures final(self).dist_scale == old(self).dist_scale, final(self).ctx == old(self).ctx,
+        ensures final(self).dist_scale == old(self).dist_scale, final(self).lib == old(self).lib, final(self).ctx == old(self).ctx,
             match r {
                 Ok(v) => v@.len() == pts@.len() && forall|i: int| 0 <= i < pts@.len() ==> pt_ok(#[trigger] pts@[i], old(self).dist_scale as int) && v@[i] == pt_val(pts@[i], old(self).dist_scale as int),
                 Err(_) => exists|i: int| 0 <= i < pts@.len() && !pt_ok(#[trigger] pts@[i], old(self).dist_scale as int),
@@ -454,7 +458,7 @@ impl LefImporter {
 //@   ret r
 //@   spec
 //|     requires pt_dec_ok(*lefpoints.0, old(self).dist_scale as int), pt_dec_ok(*lefpoints.1, old(self).dist_scale as int),
-//|     ensures final(self).dist_scale == old(self).dist_scale, final(self).ctx == old(self).ctx,
+//|     ensures final(self).dist_scale == old(self).dist_scale, final(self).lib == old(self).lib, final(self).ctx == old(self).ctx,
 //|         match r {
 //|             Ok(s) => pt_ok(*lefpoints.0, old(self).dist_scale as int) && pt_ok(*lefpoints.1, old(self).dist_scale as int)
 //|                 && s == Shape::Rect(Rect { p0: pt_val(*lefpoints.0, old(self).dist_scale as int), p1: pt_val(*lefpoints.1, old(self).dist_scale as int) }),
@@ -465,7 +469,7 @@ impl LefImporter {
 //@   ret r
 //@   spec
 //|     requires forall|i: int| 0 <= i < lefpoints@.len() ==> pt_dec_ok(#[trigger] lefpoints@[i], old(self).dist_scale as int),
-//|     ensures final(self).dist_scale == old(self).dist_scale, final(self).ctx == old(self).ctx,
+//|     ensures final(self).dist_scale == old(self).dist_scale, final(self).lib == old(self).lib, final(self).ctx == old(self).ctx,
 //|         match r {
 //|             Ok(Shape::Polygon(p)) => p.points@.len() == lefpoints@.len()
 //|                 && forall|i: int| 0 <= i < lefpoints@.len() ==> pt_ok(#[trigger] lefpoints@[i], old(self).dist_scale as int) && p.points@[i] == pt_val(lefpoints@[i], old(self).dist_scale as int),
@@ -478,7 +482,7 @@ impl LefImporter {
 //@   spec
 //|     requires forall|i: int| 0 <= i < pts@.len() ==> pt_dec_ok(#[trigger] pts@[i], old(self).dist_scale as int),
 //|         layer.width is Some ==> dec_ok(layer.width->0, old(self).dist_scale as int),
-//|     ensures final(self).dist_scale == old(self).dist_scale, final(self).ctx == old(self).ctx,
+//|     ensures final(self).dist_scale == old(self).dist_scale, final(self).lib == old(self).lib, final(self).ctx == old(self).ctx,
 //|         match r {
 //|             Ok(Shape::Path(p)) => p.points@.len() == pts@.len() && layer.width is Some
 //|                 && dist_ok(layer.width->0, old(self).dist_scale as int) && p.width as int == dist_val(layer.width->0, old(self).dist_scale as int)
@@ -490,6 +494,75 @@ impl LefImporter {
 //@ end
 }
 
+/// abstract `a` is the import of LEF macro `lefmacro` at `scale` raw units per micron
+pub open spec fn abs_is(a: Abstract, lefmacro: lef21::LefMacro, scale: int) -> bool {
+    &&& lefmacro.size is Some
+    &&& { let sz = lef21::LefPoint { x: lefmacro.size->Some_0.0, y: lefmacro.size->Some_0.1 }; let c = pt_val(sz, scale);
+          // the outline is the SIZE rectangle with its lower-left corner at the origin
+          pt_ok(sz, scale) && a.outline.points@ == seq![Point { x: 0, y: 0 }, Point { x: c.x, y: 0 }, Point { x: c.x, y: c.y }, Point { x: 0, y: c.y }] }
+    &&& a.name@ == lefmacro.name@
+    // one port per pin, in order
+    &&& a.ports@.len() == lefmacro.pins@.len() &&& forall|i: int| 0 <= i < lefmacro.pins@.len() ==> port_is(#[trigger] a.ports@[i], lefmacro.pins@[i], scale)
+    // obstructions merged per layer, in order
+    &&& exists|items: Seq<(LayerKey, Seq<Shape>)>| #[trigger] items_are(items, lefmacro.obs@, scale) && lists(a.blockages@) == merged(items)
+}
+/// C16 "one abstract cell per macro": the cell named after the macro whose only view is the macro's abstract
+pub open spec fn cell_is(c: Cell, lefmacro: lef21::LefMacro, scale: int) -> bool { c.name@ == lefmacro.name@ && c.abs is Some && abs_is(c.abs->0, lefmacro, scale) }
+/// model of `impl From<Abstract> for Cell` (data.rs): named after the abstract, only the abstract view
+impl vstd::std_specs::convert::FromSpecImpl<Abstract> for Cell {
+    open spec fn obeys_from_spec() -> bool { true }
+    open spec fn from_spec(src: Abstract) -> Cell { Cell { name: src.name, abs: Some(src) } }
+}
+impl From<Abstract> for Cell {
+    #[verifier::external_body]
+    fn from(src: Abstract) -> (r: Cell) ensures r.name@ == src.name@, r.abs == Some(src) { unimplemented!() }
+}
+/// model of PtrList::insert (wrap in a handle, append): here the list of the cells themselves
+#[verifier::external_body]
+pub fn vp_cells_insert(cells: &mut Vec<Cell>, c: Cell) ensures final(cells)@ == old(cells)@.push(c) { cells.push(c) }
+impl LefImporter {
+//@ fn layout21raw/src/lef.rs :: impl LefImporter :: fn import_cell
+//@   ret r
+//@   spec
+//|     requires macro_dec_ok(*lefmacro, old(self).dist_scale as int), obeys_key_model::<LayerKey>(),
+//|     ensures final(self).dist_scale == old(self).dist_scale, final(self).lib == old(self).lib,
+//|         r is Ok ==> final(self).ctx@ == old(self).ctx@ && cell_is(r->Ok_0, *lefmacro, old(self).dist_scale as int),
+//@   before /^        Ok\(cell\)$/
+//|         proof { assert(self.ctx@ =~= old(self).ctx@); }
+//@ end
+//@ fn layout21raw/src/lef.rs :: impl LefImporter :: fn import_lib
+//@   ret r
+//@   sub R5 /let name = ""\.to_string\(\);/ => let name = String::new();
+//@   sub R6 /for lefmacro in &leflib\.macros \{/ => for lefmacro in leflib.macros.iter() {
+//@   sub R5? /self\.lib\.cells\.insert\(cell\);/ => vp_cells_insert(&mut self.lib.cells, cell);
+//@   spec
+//|     requires obeys_key_model::<LayerKey>(), forall|i: int| 0 <= i < leflib.macros@.len() ==> macro_dec_ok(#[trigger] leflib.macros@[i], 10_000),
+//|     ensures r is Ok ==> ({
+//|         let n0 = old(self).lib.cells@.len() as int;
+//|         // LEF distances are microns; the raw library is in angstroms: 10000 raw units per micron
+//|         &&& final(self).lib.units == Units::Angstrom &&& final(self).dist_scale == 10_000
+//|         // one abstract cell per macro, in order, after whatever the library already held
+//|         &&& final(self).lib.cells@.len() == n0 + leflib.macros@.len() &&& final(self).lib.cells@.take(n0) == old(self).lib.cells@
+//|         &&& forall|i: int| 0 <= i < leflib.macros@.len() ==> cell_is(#[trigger] final(self).lib.cells@[n0 + i], leflib.macros@[i], 10_000)
+//|     }),
+//|         // case-insensitive naming is refused, not mis-read
+//|         leflib.names_case_sensitive == Some(lef21::LefOnOff::Off) ==> r is Err,
+//@   loop 1 iter it
+//|             invariant obeys_key_model::<LayerKey>(), forall|i: int| 0 <= i < leflib.macros@.len() ==> macro_dec_ok(#[trigger] leflib.macros@[i], 10_000),
+//|                 self.dist_scale == 10_000, self.lib.units == Units::Angstrom, it.index@ <= leflib.macros@.len(),
+//|                 self.lib.cells@.len() == old(self).lib.cells@.len() + it.index@, self.lib.cells@.take(old(self).lib.cells@.len() as int) == old(self).lib.cells@,
+//|                 forall|i: int| 0 <= i < it.index@ ==> cell_is(#[trigger] self.lib.cells@[old(self).lib.cells@.len() + i], leflib.macros@[i], 10_000),
+//@   before1 /let cell = self\.import_cell\(lefmacro\)\?;/
+//|             let ghost c0 = self.lib.cells@;
+//@   loopend 1
+//|             proof {
+//|                 let n0 = old(self).lib.cells@.len() as int;
+//|                 assert(self.lib.cells@.take(n0) =~= c0.take(n0));
+//|                 assert forall|i: int| 0 <= i < it.index@ implies cell_is(#[trigger] self.lib.cells@[n0 + i], leflib.macros@[i], 10_000) by { assert(self.lib.cells@[n0 + i] == c0[n0 + i]); }
+//|             }
+//@ end
+}
+proof fn canary_cells(c: Cell, m: lef21::LefMacro) requires cell_is(c, m, 10000), macro_dec_ok(m, 10000), m.pins@.len() == 1, m.obs@.len() == 1 ensures false {}
 proof fn canary_dist(d: lef21::LefDecimal) requires dec_ok(d, 10000), d.s == 3, d.m == 1500, ensures false {}
 proof fn canary_dist_ok(d: lef21::LefDecimal) requires dist_ok(d, 10000), d.s == 2, ensures false {}
 }
